@@ -449,21 +449,47 @@ def parse_stream(text, wanted):
 # judging one import
 
 
+def overwritten_forms(case, idx):
+    """Names of the imported forms that the recorded mechanism (import/x86-existing-mnemonic-arity-lost) overwrites.
+
+    A replay of the precondition only, on plain data: forms are taken in the order of their first line in the file; per
+    (upper-case mnemonic, operand count) there is one look-up slot, which exists from the start when the model has such an entry
+    and is created by a new form only when that form is written in upper case (a new form is filed under its mnemonic as
+    written, looked up under the upper-case one). A form that finds the slot takes it over; whatever imported form held it
+    before is gone. A lower-case form that finds no slot is filed where no later look-up goes and stays."""
+    c = case.get("corrupt")
+    stop = c["block"] if c and c.get("kind") != "final-blank-missing" else None
+    forms = [f for j, f in enumerate(case["forms"]) if stop is None or j < stop]
+
+    def first_line(f):
+        m = re.search(r"^" + re.escape(f["name"]) + r"(?![\w])", case["text"], re.M)
+        return m.start() if m else 10 ** 9
+
+    slot, lost = {}, set()
+    for f in sorted(forms, key=first_line):
+        key = (f["mnemonic"].upper(), len(f["codes"]))
+        if key in slot or key[1] in idx.get(key[0], ()):
+            if slot.get(key):
+                lost.add(slot[key])
+            slot[key] = f["name"]
+        elif f["mnemonic"] == key[0]:
+            slot[key] = f["name"]
+    return lost
+
+
 def classify(case, f, idx, default):
     """Mechanism key of a discrepancy on form ``f``."""
     up = f["mnemonic"].upper()
     arity = len(f["codes"])
     collide_model = arity in idx.get(up, ())
-    # inside one file the recorded mechanism needs the lost form to be filed under the key the look-up uses, i.e. to be written in
-    # upper case (a new form is filed under its mnemonic as written, looked up under the upper-case one)
-    collide_file = f["mnemonic"] == up and any(g is not f and g["mnemonic"].upper() == up and len(g["codes"]) == arity for g in case["forms"])
     # the collision mechanism has precise preconditions and is judged first: a TP/LT-containing mnemonic that collides with an
     # existing mnemonic/arity is lost for that reason, whatever its name
-    if case["isa"] == "x86" and (collide_model or collide_file) and default in ("missing-form", "throughput-snap", "latency-snap", "operand-decode"):
+    if case["isa"] == "x86" and (collide_model or f["name"] in overwritten_forms(case, idx)) and default in ("missing-form", "throughput-snap", "latency-snap", "operand-decode"):
         return "import/x86-existing-mnemonic-arity-lost"
     if case["bench"] == "ibench" and "TP" in f["mnemonic"] and "LT" in f.get("lines", "") and default in ("throughput-snap", "latency-snap", "missing-form"):
         return "import/ibench-tp-lt-substring"
-    if default == "missing-form" and (collide_model or collide_file):
+    if default == "missing-form" and case["isa"] != "x86" and (collide_model or any(
+            g is not f and g["mnemonic"].upper() == up and len(g["codes"]) == arity for g in case["forms"])):
         return "import/%s-existing-mnemonic-arity-lost" % case["isa"]
     return "import/" + default
 
